@@ -601,3 +601,44 @@ Lemma only_matching_multi_line_record_origin_proof cfg env path sk rec :
                        (option_map (fun n => n + i) (k_lnum sk)) (Some (fst m + 1))
           ++ sub (k_bytes sk) a b ++ lt_bytes (e_lt env).
 Proof. intro H. apply om_block_record_origin in H. exact H. Qed.
+
+(* ------------------------------------------------------------------ who is in the two classes *)
+(* the lines of a block cover it: every position of the block lies on a line *)
+Lemma line_spans_aux_cover ltb : forall l start pos p,
+  start <= pos -> start <= p < pos + length l ->
+  exists se, In se (line_spans_aux ltb l start pos) /\ fst se <= p < snd se.
+Proof.
+  induction l as [|b r IH]; intros start pos p Hsp Hp; cbn [line_spans_aux length] in *.
+  - destruct (Nat.ltb_spec start pos); [|lia]. exists (start, pos). split; [left; reflexivity|cbn [fst snd]; lia].
+  - destruct (b =? ltb)%N.
+    + destruct (Nat.lt_ge_cases p (S pos)) as [Hlt|Hge].
+      * exists (start, S pos). split; [left; reflexivity|cbn [fst snd]; lia].
+      * destruct (IH (S pos) (S pos) p) as (se & Hin & Hse); [lia|lia|]. exists se. split; [right; exact Hin|exact Hse].
+    + apply IH; lia.
+Qed.
+
+Lemma filter_nonempty {A} (f : A -> bool) l x : In x l -> f x = true -> length (filter f l) <> 0.
+Proof.
+  intros Hin Hf. assert (In x (filter f l)) as H by (apply filter_In; auto).
+  destruct (filter f l); [destruct H|discriminate].
+Qed.
+
+(* a non-empty submatch that starts inside the block touches a line: only EMPTY submatches are in the
+   class TouchesNoLine (MultiLinePerMatchDropsEmptyMatchAtLineStart) *)
+Theorem nonempty_submatch_touches_a_line env sk m :
+  fst m < snd m -> fst m < length (k_bytes sk) -> ~ TouchesNoLine env sk m.
+Proof.
+  intros Hne Hin. unfold TouchesNoLine, lines_touched, block_lines, line_spans.
+  destruct (line_spans_aux_cover (lt_byte (e_lt env)) (k_bytes sk) 0 0 (fst m)) as (se & Hse & Hp); [lia|lia|].
+  apply (filter_nonempty _ _ se Hse). unfold touches.
+  destruct (Nat.ltb_spec (fst se) (snd m)); [|lia]. destruct (Nat.ltb_spec (fst m) (snd se)); [reflexivity|lia].
+Qed.
+
+(* an empty submatch never has a byte on a line's content: it is always in the class
+   OnlyTerminatorsOrEmpty (MultiLineOnlyMatchingDropsEmptyMatches) *)
+Theorem empty_submatch_has_no_piece env sk m : snd m <= fst m -> OnlyTerminatorsOrEmpty env sk m.
+Proof.
+  intro He. unfold OnlyTerminatorsOrEmpty, pieces_of. induction (block_lines env sk) as [|l r IH]; [reflexivity|].
+  cbn [filter]. unfold has_piece at 1.
+  destruct (Nat.ltb_spec (Nat.max (fst l) (fst m)) (Nat.min (content_end env sk l) (snd m))); [lia|exact IH].
+Qed.
